@@ -265,8 +265,8 @@ const ruleText = "consumes list of 0-4 lower-case entries (concrete, type/*, */*
 func Props() []kit.Runner {
 	return []kit.Runner{
 		kit.Prop[Case]{ID: "C06", Name: "untyped", Rule: "[untyped API as is] " + ruleText,
-			Quick: 1200, Thorough: 6000, Gen: Gen, Check: CheckUntyped, Classify: Classify},
+			Quick: 1000, Thorough: 5000, Gen: Gen, Check: CheckUntyped, Classify: Classify},
 		kit.Prop[Case]{ID: "C06", Name: "wild", Rule: "[RoutableAPI whose ConsumersFor resolves type/* and */* to the registered concrete consumers] " + ruleText,
-			Quick: 1200, Thorough: 6000, Gen: Gen, Check: CheckWild, Classify: Classify},
+			Quick: 1000, Thorough: 5000, Gen: Gen, Check: CheckWild, Classify: Classify},
 	}
 }
